@@ -13,6 +13,7 @@ notation it was printed in, and reports and places are matched one to one.
 """
 import itertools
 import random
+import warnings
 from collections import OrderedDict
 
 import c14
@@ -83,7 +84,9 @@ def load(text):
         if len(_DOCS) > 400:
             _DOCS.clear()
         try:
-            data = _E["Parsers"].get_yaml_editor().load(text)
+            with warnings.catch_warnings():
+                warnings.simplefilter("ignore")       # ruamel's ReusedAnchorWarning on random documents
+                data = _E["Parsers"].get_yaml_editor().load(text)
             d = ("ok", data)
         except Exception as e:  # noqa
             d = ("err", e)
@@ -886,7 +889,7 @@ def chunks(tier, seed):
                 emit((doc, e, rng.choice(["dot", "slash"]), o))
     yield from flush()
     # (D) seeded random documents
-    nrand = 6000 if thorough else 700
+    nrand = 8000 if thorough else 2500
     for i in range(nrand):
         anchors = {}
         body = rand_doc(rng, rng.randint(1, 4), anchors, 12)
